@@ -21,7 +21,7 @@ from mc.drivers import datasets as D
 
 ID = "C03"
 LEVEL = "exploration"
-BUDGET = {"quick": 300, "thorough": 900}
+BUDGET = {"quick": 300, "thorough": 3600}
 CHUNK = 8
 RULE = (
     "cases = (a) all cost vectors over the alphabet for each length as 1x1 volumes, (b) packed volumes for every "
